@@ -210,21 +210,28 @@ class C11(Prop):
     theorems = ["EaselModel.Props.C11." + t for t in (
         "score2bin_interval", "bins_partition", "add_never_faults", "add_counts_once", "histogram_accounts", "bookkeeping_true",
         "sorted_flag_sound", "tail_query_agrees", "rank_query_agrees", "tailmass_query_agrees",
-        "settail_agrees_with_raw_data", "declare_censoring_agrees", "lognormal_fit_closed_form", "lognormal_mu_is_maximiser",
+        "settail_agrees_with_raw_data", "settailbymass_agrees_with_raw_data", "declare_censoring_agrees", "lognormal_fit_closed_form", "lognormal_mu_is_maximiser",
         "gumbel_profile_concave", "gumbel_complete_fit_near_optimal", "gumbel_censored_fit_near_optimal",
         "exp_fit_closed_form", "exp_fit_is_maximiser", "gumbel_mu_is_maximiser", "lawless_is_derivative", "gumbel_complete_fit_stationary",
         "gumbel_censored_fit_stationary", "gumbel_loc_fits_closed_form", "gumbel_fits_terminate")]
     claimed = True
     technique = ("Lean 4 proof over an executable line-by-line model (numeric class: Float for the bit-exact differential run, Q/R for the theorems) "
                  "+ bit-exact correspondence with the ASan/UBSan-built C code + exact-rational / log-likelihood property monitors")
-    level_text = ("PARTIAL. Theorems (Lean 4, exact arithmetic over Q, every value sequence): esl_histogram Create/Add account for every accepted value exactly once, in the bin whose "
-                  "half-open interval (bmin+b*w, bmin+(b+1)*w] contains it, however often the bins grew in either direction; growth never changes a count or a boundary; counts sum to n; "
-                  "imin/imax/xmin/xmax/n are what they say; Score2Bin answers eslERANGE instead of overflowing; Add never faults for any numeric class (incl. binary64). "
-                  "The hand model is tied to the working tree by a bit-exact differential run (histogram ops and queries, exponential/log-normal/Gumbel complete, censored and fixed-lambda fits "
-                  "including every Newton/bisection step); property monitors (exact rational bin membership, rank/tail vs sorted raw data, log-likelihood at the fit vs perturbed parameters) report concrete failing inputs.")
-    level_note = ("Residual: binary64 rounding (L0) is not a theorem; conjugate-gradient fits (Weibull, stretched exponential, truncated Gumbel, GEV) and the gamma generalized-Newton fit are "
-                  "checked on the implementation's output only (termination, documented status, finite parameters) - global optimality of an optimiser result is not claimed; "
-                  "log-normal sigma uses the n-1 (unbiased) variance, not the ML n; libm exp/log and libc qsort are trusted.")
+    level_text = ("PARTIAL. Theorems (Lean 4; the executable model's own definitions read over Q resp. R; every value sequence / data set): "
+                  "HISTOGRAM - esl_histogram Create/Add account for every accepted value exactly once, in the bin whose half-open interval (bmin+b*w, bmin+(b+1)*w] contains it, "
+                  "however often the bins grew in either direction (growth changes no count and no boundary); counts sum to n; imin/imax/xmin/xmax/n are what they say; Score2Bin answers "
+                  "eslERANGE instead of overflowing; Add never faults for any numeric class (incl. binary64); GetRank/GetTail/GetTailByMass return exactly the sorted raw data "
+                  "(binary search in bounds and terminating); SetTail/SetTailByMass/DeclareCensoring bookkeeping (phi, cmin, z, No, Nc) equals the counts of raw values below/above the threshold. "
+                  "FITS - exponential: (min x, 1/(mean-min)) is THE likelihood maximiser; Gumbel complete/censored/fixed-lambda: mu is the exact maximiser for the returned lambda, lawless416/422 "
+                  "is the derivative of the concave profile likelihood, so an eslOK result is the global maximiser up to n*1e-5*|lambda'-lambda|; termination of every loop; log-normal closed form. "
+                  "The hand model is tied to the working tree by a differential run (bit-identical on the clean tree; integers/copies exact, computed doubles to 1e-12/1e-7 relative) over histogram "
+                  "histories and every closed-form/Newton fit; property monitors (exact rational bin membership, queries vs sorted raw data, local pattern search of an independently evaluated "
+                  "log-likelihood around every optimiser result incl. binned fits, location = min x, recovery on exact quantile grids) report concrete failing inputs.")
+    level_note = ("Residual: binary64 rounding (L0) is not a theorem (values within rounding distance of a bin edge; exp(-lambda*x) under/overflow); the conjugate-gradient fits "
+                  "(Weibull, stretched exponential, truncated Gumbel, GEV, their binned variants) and the gamma generalized-Newton / binned bisection fits are NOT modelled: they are checked on the "
+                  "implementation's output (termination, documented status, finite parameters, local optimality within calibrated tolerances) - global optimality of an optimiser result is not claimed; "
+                  "log-normal sigma uses the n-1 (unbiased) variance, not the ML n; esl_rootfinder.c is not used by any fit and is not covered; libm exp/log and libc qsort are trusted. "
+                  "Seven genuine defects found while building this check were repaired in /repo (commits b44f0f8 7d6f911 fd84f7f bad2f4e 2487976 935fded 9b72a6e); their witnesses are corpus regression cases.")
     diverge_is_violation = True
     fault_is_output = True      # faults are classified by monitor() (a hang inside a CG-based fit carries the known key)
     trusted_base = ["hand model of esl_histogram.c and of the closed-form/Newton fits tied by a bit-exact differential run (h_stats.c, ASan+UBSan build of the working tree)",
@@ -283,6 +290,14 @@ class C11(Prop):
         wa, wb = a.split(" "), b.split(" ")
         if len(wa) != len(wb): return False
         name = op.split()[0] if op else ""
+        if name == "hdump" and a.startswith("ok nb=") and b.startswith("ok nb="):
+            return self.same_histogram(kv(a), kv(b))
+        if name == "hscore":                      # same status, same bin identified by its lower bound (not by array index)
+            if wa[0] != wb[0]: return False
+            la, lb = fbits(kv(a)["lb"]), fbits(kv(b)["lb"])
+            return la == lb or abs(la - lb) <= 1e-12 * (abs(la) + abs(lb))
+        if name == "hnew":
+            return wa[0] == wb[0]
         rel = 1e-7 if name in ("fit", "hexpfit") else 1e-12
         exact_keys = ("xmin", "xmax", "first", "last", "hash", "w")      # copies of input values: exact
         for x, y in zip(wa, wb):
@@ -297,6 +312,34 @@ class C11(Prop):
             if name == "hrank": return False
             if math.isnan(fx) or math.isnan(fy) or math.isinf(fx) or math.isinf(fy): return False
             if abs(fx - fy) > rel * max(abs(fx), abs(fy)) + 1e-300: return False
+        return True
+
+    def same_histogram(self, x, y):
+        """Two dumps describe the same histogram when every observable the property talks about agrees: counters, flags, xmin/xmax,
+        width, and the occupied bins identified by their BOUNDARIES (bmin + i*w) - not by array index, so that a different
+        over-allocation policy (how many empty bins a growth adds on either side) is not reported; imin/imax/cmin are compared
+        relative to the lowest occupied bin."""
+        for k in ("n", "nc", "no", "z", "xmin", "xmax", "w", "full", "done", "rounded", "ds"):
+            if x[k] != y[k]: return False
+        def occupied(o):
+            bmin, w = Fraction(fbits(o["bmin"])), Fraction(fbits(o["w"]))
+            if o["obs"] == "-": return [], bmin, w
+            return [(bmin + int(t.split(":")[0]) * w, int(t.split(":")[1]), int(t.split(":")[0])) for t in o["obs"].split(",")], bmin, w
+        ox, bx, w = occupied(x); oy, by, _ = occupied(y)
+        if len(ox) != len(oy): return False
+        tol = Fraction(1, 10**12)
+        for (lx, cx, _), (ly, cy, _) in zip(ox, oy):
+            if cx != cy or abs(lx - ly) > tol * (abs(lx) + abs(w)): return False
+        px, py = fbits(x["phi"]), fbits(y["phi"])
+        if not (px == py or abs(px - py) <= 1e-12 * (abs(px) + abs(py))): return False
+        if ox:
+            fx, fy = ox[0][2], oy[0][2]
+            for k in ("imin", "imax"):
+                if int(x[k]) - fx != int(y[k]) - fy: return False
+            # cmin: same offset from the lowest occupied bin, unless both sit on the clamp / sentinel
+            if int(x["cmin"]) - fx != int(y["cmin"]) - fy and not (int(x["cmin"]) == 0 and int(y["cmin"]) == 0): return False
+        else:
+            if (int(x["imin"]) == int(x["nb"])) != (int(y["imin"]) == int(y["nb"])) or x["imax"] != y["imax"]: return False
         return True
 
     def nontrivial(self, case, out):
@@ -753,7 +796,8 @@ class C11(Prop):
             # (esl_exp_FitCompleteBinned is modelled exactly and compared by the differential run; its closed form treats the lowest
             #  bin as starting at mu, so it is not the maximiser of the exact binned likelihood - only recovery is monitored here)
             if not lam > 0: return None
-            if law_ok and o["ds"] == "complete" and abs(lam / meta["lambda"] - 1) > 0.25:
+            # recovery only where the documented approximations are negligible: narrow bins, mu not rounded down to a bin bound
+            if law_ok and o["ds"] == "complete" and o["rounded"] == "0" and bw * meta["lambda"] <= 0.06 and abs(lam / meta["lambda"] - 1) > 0.25:
                 return "%s on %s data (lambda=%r) returned lambda=%r" % (name, meta["law"], meta["lambda"], lam)
             return None
         lam, tau = ps[1], ps[2]
